@@ -1208,8 +1208,14 @@ func (v *FV) appendOp(fr *Frame, st *State, in ssa.Value, cc *ssa.CallCommon, po
 	if e.Sort == "Slice" {
 		elen := fmt.Sprintf("(sl_len %s)", e.T)
 		newLen = v.iadd(slen, elen)
-		v.emit(fmt.Sprintf("(assert (forall ((i %s)) (! (=> (and (%s %s i) (%s i %s)) (= (select %s i) %s)) :pattern ((select %s i)))))",
-			v.idx(), le, z, lt, slen, contents, v.sliceElemAt(pre, arr, es, s.T, "i"), contents))
+		oldAt := v.sliceElemAt(pre, arr, es, s.T, "i")
+		pats := fmt.Sprintf(":pattern ((select %s i))", contents)
+		if strings.HasPrefix(oldAt, "(select ") && !strings.Contains(oldAt, "(ite ") {
+			// also instantiate from the old side: facts about an element of the old slice carry over
+			pats += fmt.Sprintf(" :pattern (%s)", oldAt)
+		}
+		v.emit(fmt.Sprintf("(assert (forall ((i %s)) (! (=> (and (%s %s i) (%s i %s)) (= (select %s i) %s)) %s)))",
+			v.idx(), le, z, lt, slen, contents, oldAt, pats))
 		v.emit(fmt.Sprintf("(assert (forall ((i %s)) (=> (and (%s %s i) (%s i %s)) (= (select %s %s) %s))))",
 			v.idx(), le, z, lt, elen, contents, v.iadd(slen, "i"), v.sliceElemAt(pre, arr, es, e.T, "i")))
 		// single-element appends (the common case) get a direct equation
